@@ -19,6 +19,7 @@ pub fn run(tables: &str, driver: &str, seed: u64, out: &str) -> serde_json::Valu
     let mut checks = 0u64;
     let mut samples = vec![];
     let mut violations = vec![];
+    let mut panics: Vec<String> = vec![];
     // 1. supported list = table-derived list
     let sup = supported();
     let filtered = strs(&t["FILTERED_NAMES"]);
@@ -154,17 +155,28 @@ pub fn run(tables: &str, driver: &str, seed: u64, out: &str) -> serde_json::Valu
     // 5. unicode ranges at every boundary +-1
     for r in t["UNICODE_RANGES"].as_array().unwrap() {
         let (lo, hi) = (r[1].as_u64().unwrap() as u32, r[2].as_u64().unwrap() as u32);
-        for cp in [lo.wrapping_sub(1), lo, lo + 1, hi.saturating_sub(1), hi, hi + 1] {
+        for cp in [lo.wrapping_sub(1), lo, lo + 1, hi.saturating_sub(1), hi, hi + 1, hi + 0x1000, 0xeffff, 0xf0000, 0xffffd, 0x100000, 0x10fffd, 0x10ffff] {
             if let Some(ch) = char::from_u32(cp) {
                 checks += 1;
                 let exp = t["UNICODE_RANGES"].as_array().unwrap().iter()
                     .find(|x| x[1].as_u64().unwrap() as u32 <= cp && cp <= x[2].as_u64().unwrap() as u32)
                     .map(|x| x[0].as_str().unwrap().to_string());
-                if hooks::unicode_range(ch).map(|s| s.to_string()) != exp {
-                    diffs.push(format!("unicode_range(U+{:04X})", cp));
+                match std::panic::catch_unwind(|| hooks::unicode_range(ch).map(|s| s.to_string())) {
+                    Ok(got) => {
+                        if got != exp {
+                            diffs.push(format!("unicode_range(U+{:04X})", cp));
+                        }
+                    }
+                    Err(_) => {
+                        let what = format!("unicode_range panics for U+{:04X} (called for every decoded character by the mess detector and by unicode_ranges())", cp);
+                        if !panics.contains(&what) { panics.push(what); }
+                    }
                 }
             }
         }
+    }
+    for w in &panics {
+        violations.push(json!({"prop": "C02", "what": w, "known": null, "case": {"call": w}}));
     }
     // 6. aliases: the real accessor for every reportable name (C02/C18 search): no panic, and
     //    every alias the canonicaliser accepts decodes all single bytes (and samples) identically
